@@ -780,7 +780,17 @@ class C06(Check):
             return case
         if "steps" in case:
             steps = common.shrink_list(case["steps"], lambda xs: any(x["op"] == "vote" for x in xs) and pred({**case, "steps": xs}))
-            return {**case, "steps": steps}
+            small = {**case, "steps": steps}
+            # scripts may now be longer than the colony they address: cut them to the colony size at that vote
+            try:
+                sizes = [len(snap["voters"]) for snap, _t in self._drive(small)["votes"]]
+                votes = iter(sizes)
+                cut = [dict(st, script=st["script"][:next(votes)]) if st["op"] == "vote" else st for st in steps]
+                if pred({**case, "steps": cut}):
+                    small = {**case, "steps": cut}
+            except Exception:
+                pass
+            return small
         vs = common.shrink_list(case["voters"], lambda xs: pred({**case, "voters": xs}))
         return {**case, "voters": vs}
 
